@@ -224,7 +224,9 @@ def solve_milp(
         counter += 1
 
     if best_solution is None:
-        return Result(None, float("inf") if minimize else float("-inf"), nodes_explored, total_iters, Status.INFEASIBLE)
+        # Unexplored nodes left means the node limit was hit: nothing has been proven
+        no_solution = Status.INFEASIBLE if not tree else Status.MAX_ITER
+        return Result(None, float("inf") if minimize else float("-inf"), nodes_explored, total_iters, no_solution)
 
     status = Status.OPTIMAL if not tree else Status.FEASIBLE
     if solution_limit > 1 and all_solutions:
